@@ -1,10 +1,32 @@
 // R9: `key.chars().map(<closure>).collect::<String>()` -- std iterator semantics (A-STD): the result has one
 // char per input char, each the image under the lifted closure `sanitize_char` (whose contract is proved).
 #[verifier::external_body]
-pub fn str_map_chars_sanitize_char(key: &str) -> (r: String)
+pub fn str_map_chars_sanitize_char_raw(key: &str) -> (r: String)
     ensures
         r@.len() == key@.len(),
         forall|i: int| 0 <= i < key@.len() ==> #[trigger] r@[i] == sanitize_char_spec(key@[i]),
 {
     key.chars().map(|c| sanitize_char(c)).collect()
+}
+
+// verified wrapper: the consequences the callers need (no trusted facts added)
+pub fn str_map_chars_sanitize_char(key: &str) -> (r: String)
+    ensures
+        r@.len() == key@.len(),
+        forall|i: int| 0 <= i < key@.len() ==> #[trigger] r@[i] == sanitize_char_spec(key@[i]),
+        all_allowed(r@),
+        all_allowed(key@) ==> r@ == key@,
+{
+    let r = str_map_chars_sanitize_char_raw(key);
+    proof { lemma_mapped_allowed(key@, r@); }
+    r
+}
+
+// verified wrapper around format!("ns_{:x}", v)
+pub fn format_ns_hex_checked(v: u64) -> (r: String)
+    ensures all_allowed(r@), safe_component(r@), !all_chars(r@, '_'), !all_chars(r@, '.'), r@.len() >= 4,
+{
+    let r = format_ns_hex(v);
+    proof { lemma_ns_hex_safe(r@, v); }
+    r
 }
